@@ -10,6 +10,7 @@ import (
 	"verifharness/core"
 	"verifharness/gen"
 	"verifharness/model"
+	"verifharness/types"
 	"verifharness/mon"
 )
 
@@ -20,6 +21,11 @@ func overlaps(aLo, aHi, bLo, bHi uintptr) bool { return aLo < bHi && bLo < aHi }
 func c11Case(c *core.Ctx, idx int) {
 	rec := c.Rec
 	tc := genType(c, idx, nil)
+	if idx%9 == 4 {
+		// values that are nothing but one string or one run of bytes: the cheapest thing to hand out
+		// without copying
+		tc.typ = []reflect.Type{reflect.TypeOf(""), reflect.TypeOf(types.MyStr("")), reflect.TypeOf([]byte(nil)), reflect.TypeOf(types.MyBytes(nil))}[(idx/9)%4]
+	}
 	if _, err := tc.p.CodecForType(tc.typ); err != nil {
 		rec.Violation("valid-type-rejected", fmt.Sprintf("[%s] %v\n  type %s", tc.name, err, typeString(tc.typ)), nil)
 		return
@@ -76,6 +82,37 @@ func c11Case(c *core.Ctx, idx int) {
 		if d := model.Diff(snap, v, "$"); d != "" {
 			rec.Violation("output-aliases-value", fmt.Sprintf("overwriting the bytes Marshal returned changed the value: %s %s", d, desc()), caseExtra(tc, v, nil))
 			return
+		}
+
+		// the same with no destination at all, by pointer and by value: what comes back is the caller's
+		// to scribble on
+		for k, arg := range []any{ptrTo(v), v.Interface()} {
+			o, err, pn := marshal(tc.p, nil, arg)
+			rec.Eval(1)
+			if err != nil || pn != "" || cap(o) == 0 {
+				continue
+			}
+			how := []string{"Marshal(nil, &v)", "Marshal(nil, v)"}[k]
+			oLo := uintptr(unsafe.Pointer(unsafe.SliceData(o)))
+			oHi := oLo + uintptr(cap(o))
+			for _, r := range refs {
+				if overlaps(oLo, oHi, r.Lo, r.Hi) {
+					rec.Violation("output-aliases-value", fmt.Sprintf("the bytes %s returned share memory with %s of the value %s", how, r.Path, desc()), caseExtra(tc, v, nil))
+					return
+				}
+			}
+			if fault := mon.Faulting(func() {
+				for i := range o {
+					o[i] ^= 0xff
+				}
+			}); fault != "" {
+				rec.Violation("output-aliases-value", fmt.Sprintf("the bytes %s returned cannot be written to: %s %s", how, fault, desc()), caseExtra(tc, v, nil))
+				return
+			}
+			if d := model.Diff(snap, v, "$"); d != "" {
+				rec.Violation("output-aliases-value", fmt.Sprintf("overwriting the bytes %s returned changed the value: %s %s", how, d, desc()), caseExtra(tc, v, nil))
+				return
+			}
 		}
 
 		// --- Unmarshal side, input in a read-only mapping followed by an inaccessible page ---
